@@ -23,6 +23,16 @@ overlay_test() {
   VERIF_TIER="$tier" exec "bin/$name.test" -test.run "^${fn}\$" -test.timeout 0
 }
 
+# bus-token sub-check of C09: real nats-server built by server.newNatsServer, real nats.go clients
+bustoken() {
+  cp /repo/go.sum realnats/go.sum 2>/dev/null
+  printf '{"Replace":{"/repo/server/zz_verif_bustoken_test.go":"%s/overlay/bustoken_test.go.txt"}}' "$VERIF_ROOT" > bin/ov_bustoken.json
+  (cd realnats && go test -c -overlay ../bin/ov_bustoken.json -vet=off -o ../bin/bustoken.test github.com/simpleiot/simpleiot/server) || { echo "HARNESS-ERROR: bus-token test build failed"; exit 3; }
+  rm -f bin/c09_bustoken.json
+  VERIF_BUSTOKEN_OUT="$VERIF_ROOT/bin/c09_bustoken.json" bin/bustoken.test -test.run '^TestVerifBusToken$' -test.timeout 300s > bin/bustoken.log 2>&1
+  [ -s bin/c09_bustoken.json ] || { echo "HARNESS-ERROR: bus-token test produced no result"; tail -5 bin/bustoken.log; exit 3; }
+}
+
 case "${1:-}" in
   setup)
     build_s
@@ -40,7 +50,11 @@ id="$1"; tier="${2:-quick}"
 case "$id" in
   C14)
     overlay_test c14 client TestVerifC14;;
-  C01|C03|C05|C06|C09|C15|C10|C11|C12|C16|C17|C18|C19)
+  C09)
+    build_s
+    bustoken
+    VERIF_C09_BUSTOKEN="$VERIF_ROOT/bin/c09_bustoken.json" exec bin/verifs "$id" "$tier";;
+  C01|C03|C05|C06|C15|C10|C11|C12|C16|C17|C18|C19)
     build_s
     exec bin/verifs "$id" "$tier";;
   *) echo "HARNESS-ERROR: unknown property $id"; exit 3;;
